@@ -36,7 +36,7 @@ ASSUMPTIONS = [
     "programs whose plain-Python evaluation raises (ZeroDivisionError, TypeError) or exceeds 1e12 are discarded",
 ]
 NSHARDS = {"quick": 16, "thorough": 16}
-BUDGET_S = {"quick": 18, "thorough": 240}
+BUDGET_S = {"quick": 12, "thorough": 240}
 FLOORS = {
     "quick": {"evaluations": 3000, "distinct": 2000,
               "counters": {"hook_events": 6000, "subsets": 64, "events_compared": 6000,
